@@ -40,7 +40,7 @@ func (p Params) Validate() error {
 	}
 
 	if p.DepositTaxRate > 0 {
-		if p.MaxDepositTax == 0 || p.DepositTaxRate > 1e4 {
+		if p.MaxDepositTax == 0 || p.DepositTaxRate >= 1e4 {
 			return fmt.Errorf("invalid deposit tax: DepositTaxRate(%d) MaxDepositTax(%d)",
 				p.DepositTaxRate, p.MaxDepositTax)
 		}
